@@ -536,6 +536,7 @@ Section RecordLayer.
   Definition read_app_segs (fuel : nat) (st : hstate) (retry : Z) (raw : bytes) (segs : list bytes) :=
     read_loop rx_record_segs fuel st retry (raw, segs).
 End RecordLayer.
+Arguments RxRec {B}. Arguments RxEnd {B}.
 
 (* the 12-byte nonce handed to the inner AEAD by the two wrappers of cipher_suites.go *)
 Inductive nonce_wrap := WrapNone | WrapPrefix (prefix : bytes) | WrapXor (mask : bytes).
